@@ -70,12 +70,12 @@ impl Project {
     fn generate_sub_tid_to_contained_block_tids_map(
         &self,
         block_tid_to_block_map: &HashMap<Tid, &Term<Blk>>,
-    ) -> HashMap<Tid, HashSet<Tid>> {
+    ) -> HashMap<Tid, BTreeSet<Tid>> {
         let mut sub_to_blocks_map = HashMap::new();
         for sub in self.program.term.subs.values() {
             let mut worklist: Vec<Tid> =
                 sub.term.blocks.iter().map(|blk| blk.tid.clone()).collect();
-            let mut block_set = HashSet::new();
+            let mut block_set = BTreeSet::new();
             while let Some(block_tid) = worklist.pop() {
                 if !block_set.contains(&block_tid) {
                     block_set.insert(block_tid.clone());
@@ -114,7 +114,7 @@ impl Project {
     /// and should not be used for other purposes.
     fn duplicate_blocks_contained_in_several_subs(
         &self,
-        sub_to_blocks_map: &HashMap<Tid, HashSet<Tid>>,
+        sub_to_blocks_map: &HashMap<Tid, BTreeSet<Tid>>,
         tid_to_sub_map: &HashMap<Tid, Tid>,
         block_tid_to_block_map: &HashMap<Tid, &Term<Blk>>,
     ) -> HashMap<Tid, Vec<Term<Blk>>> {
